@@ -898,8 +898,13 @@ func ensureServiceTxn(tx WriteTxn, idx uint64, node string, preserveIndexes bool
 			service = svc.Proxy.DestinationServiceName
 		}
 		sn := structs.ServiceName{Name: service, EnterpriseMeta: svc.EnterpriseMeta}
-		if err = checkGatewayWildcardsAndUpdate(tx, idx, &sn, svc, structs.GatewayServiceKindService); err != nil {
-			return fmt.Errorf("failed updating gateway mapping: %s", err)
+		// Only local services are bound to local wildcard gateways; an instance
+		// imported from a peer must not modify the local gateway-services view
+		// (and would never be cleaned up again, see deleteServiceTxn).
+		if svc.PeerName == "" {
+			if err = checkGatewayWildcardsAndUpdate(tx, idx, &sn, svc, structs.GatewayServiceKindService); err != nil {
+				return fmt.Errorf("failed updating gateway mapping: %s", err)
+			}
 		}
 
 		if svc.PeerName == "" && sn.Name != "" {
